@@ -359,6 +359,92 @@ pub fn probes(scn: &Scenario, _rf: &Ref, ex: &Exec) -> Vec<&'static str> {
     if c10_inconclusive(scn, _rf, ex) {
         p.push("budget_inconclusive_slow_fair_schedule");
     }
+    // inside the dependencies
+    if log.iter().any(|e| e.kind == Kind::Dep && e.stage == crate::sched::DEP_SPIN) {
+        p.push("source_lock_contended");
+    }
+    if log.iter().any(|e| e.kind == Kind::Dep && e.stage == crate::sched::DEP_BAG_SPIN) {
+        p.push("bag_writer_waited_for_growth");
+    }
+    if log.iter().any(|e| e.kind == Kind::Dep && e.stage == crate::sched::DEP_BAG_GROW) {
+        p.push("bag_grew_during_run");
+    }
+    // a thread was parked inside the source iterator's next() while another thread ran
+    for (i, e) in log.iter().enumerate() {
+        if e.kind == Kind::SrcNext && e.slot != 0 {
+            if let Some(nx) = log.get(i + 1) {
+                if nx.slot != e.slot {
+                    p.push("parked_inside_source_next");
+                    break;
+                }
+            }
+        }
+    }
+    // a claim (position taken, nothing pulled yet) was overtaken by another thread
+    for (i, e) in log.iter().enumerate() {
+        if e.kind == Kind::Dep && e.stage == crate::sched::DEP_CLAIM && e.slot != 0 {
+            if let Some(nx) = log.get(i + 1) {
+                if nx.slot != e.slot {
+                    p.push("parked_between_claim_and_pull");
+                    break;
+                }
+            }
+        }
+    }
+    // short-circuit: a later match was published (its finder exited) before an earlier match was evaluated
+    {
+        let pos_of = |id: u64| _rf.finals.iter().position(|f| f.1.id == id);
+        let neg = matches!(scn.term, Term::All(_));
+        let hits: Vec<(usize, u16, usize)> = log
+            .iter()
+            .enumerate()
+            .filter(|(_, e)| e.kind == Kind::Ret && e.stage == STAGE_PRED && (e.b == 1) != neg)
+            .filter_map(|(i, e)| pos_of(e.a).map(|p| (i, e.slot, p)))
+            .collect();
+        'outer: for a in &hits {
+            for b in &hits {
+                if a.2 > b.2 && a.0 < b.0 {
+                    // did a's finder exit before b's evaluation?
+                    if log[a.0..b.0].iter().any(|e| e.kind == Kind::WorkerEnd && e.slot == a.1) {
+                        p.push("later_match_published_first");
+                        break 'outer;
+                    }
+                }
+            }
+        }
+    }
+    // faults: the panic fired while other workers were in the middle of their work, and while elements
+    // behind the panicking one had already been processed by somebody else
+    if let Some(pi) = log.iter().position(|e| e.kind == Kind::Panic) {
+        let pslot = log[pi].slot;
+        let mut others_started: Vec<u16> = vec![];
+        let mut others_ended: Vec<u16> = vec![];
+        for e in &log[..pi] {
+            if e.slot != 0 && e.slot != pslot {
+                if matches!(e.kind, Kind::Call | Kind::Inner | Kind::Clone) && !others_started.contains(&e.slot) {
+                    others_started.push(e.slot);
+                }
+                if e.kind == Kind::WorkerEnd {
+                    others_ended.push(e.slot);
+                }
+            }
+        }
+        if others_started.iter().any(|s| !others_ended.contains(s)) {
+            p.push("panic_while_others_mid_chunk");
+        }
+        if log[pi].stage >= 1 && log[pi].stage <= 3 || log[pi].stage == STAGE_SRC {
+            // ids of source elements are positions + 1 at stage 0/1
+            let pa = log[pi].a;
+            if pa <= scn.vals.len() as u64
+                && log[..pi].iter().any(|e| e.kind == Kind::Call && e.stage == log[pi].stage && e.slot != pslot && e.a > pa && e.a <= scn.vals.len() as u64)
+            {
+                p.push("later_element_processed_before_panic");
+            }
+        }
+        if log[pi + 1..].iter().any(|e| e.slot != 0 && e.slot != pslot && matches!(e.kind, Kind::Call | Kind::Inner)) {
+            p.push("others_kept_working_after_panic");
+        }
+    }
     let _ = scn;
     p.sort();
     p.dedup();
